@@ -130,7 +130,7 @@ def make_source_direct(R, rng, d, i, force=None):
     if force:
         size = list(force["size"])
     levels = {}
-    for k in range(rng.choice([1, 2])):
+    for k in range(rng.choice([1, 2]) if not (force and force.get("levels")) else force["levels"]):
         cs = [rng.choice([2, 4, 8]) for _ in range(3)]
         if force:
             cs = list(force["chunk"])
@@ -151,6 +151,12 @@ def make_source_direct(R, rng, d, i, force=None):
             a = np.array([1 + rng.randrange(hi) for _ in range(nch * sz[0] * sz[1] * sz[2])], dtype=dt)
         a = a.reshape(nch, sz[2], sz[1], sz[0])
         a[:, sz[2] // 2:, :, :] = 0            # half of the volume is background
+        if force and force.get("slab_x"):
+            # a segmentation-like volume: background everywhere except a slab of one label along x, so that the
+            # FIRST chunk of a scale and the LAST chunk of the next coarser one are equal (all background)
+            x0s, x1s = [v // 2 ** k for v in force["slab_x"]]
+            a[...] = 0
+            a[:, :, :, x0s:x1s] = 7
         if dt == "float32" and force and force.get("special"):
             a[:, :cs[2], :cs[1], :cs[0]] = np.nan      # one chunk holds nothing but NaN (outside the field of view)
         levels[key] = a
@@ -259,6 +265,23 @@ def run(R):
     src_dir, info, src_acc, src_kind, src_scales = make_source_direct(R, rng, d, 0, force)
     _convert(R, rng, d, 0, src_dir, info, src_acc, src_kind, src_scales, force)
     R.count("dest:sharded-128-shard-files")
+    # a label volume (background + one slab) into compressed_segmentation scales with DIFFERENT block sizes (and
+    # a raw / compressed mix): the last chunk written for one scale equals the first chunk of the next
+    for w, blocks in enumerate([([4, 4, 4], [8, 8, 8]), ([8, 8, 8], [2, 4, 8])]):
+        d = os.path.join(R.tmp, f"slab{w}")
+        os.makedirs(d)
+        force = {"size": (32, 16, 16), "chunk": (8, 8, 8), "dtype": "uint32", "levels": 2, "slab_x": (8, 16),
+                 "dst_kind": ["deep-gz", "flat"][w], "dst_dtype": ["uint32", "uint64"][w], "cseg_blocks": blocks}
+        src_dir, info, src_acc, src_kind, src_scales = make_source_direct(R, rng, d, w, force)
+        _convert(R, rng, d, 0, src_dir, info, src_acc, src_kind, src_scales, force)
+        R.count("dest:uniform-chunks-across-scales-with-different-block-sizes")
+    # a destination whose info announces one scale more than the source has
+    d = os.path.join(R.tmp, "extrascale")
+    os.makedirs(d)
+    force = {"size": (9, 6, 5), "chunk": (4, 4, 4), "dtype": "uint16", "dst_kind": "deep-gz", "dst_dtype": "uint16",
+             "extra_dest_scale": True}
+    src_dir, info, src_acc, src_kind, src_scales = make_source_direct(R, rng, d, 0, force)
+    _convert(R, rng, d, 0, src_dir, info, src_acc, src_kind, src_scales, force)
     n = 24 if R.tier == "quick" else 500
     for i in range(n):
         d = os.path.join(R.tmp, f"c{i}")
@@ -383,6 +406,9 @@ def _convert(R, rng, d, j, src_dir, info, src_acc, src_kind, src_scales, force=N
                 s["compressed_segmentation_block_size"] = [rng.choice([2, 4, 8]) for _ in range(3)]
             else:
                 s["encoding"] = "raw"
+            if force and force.get("cseg_blocks"):
+                s["encoding"] = "compressed_segmentation"
+                s["compressed_segmentation_block_size"] = list(force["cseg_blocks"][dinfo["scales"].index(s)])
             if dst_kind.startswith("sharded"):
                 cs = s["chunk_sizes"][0]
                 if len(set(cs)) != 1 or len(s["chunk_sizes"]) != 1:
@@ -398,6 +424,14 @@ def _convert(R, rng, d, j, src_dir, info, src_acc, src_kind, src_scales, force=N
         if not dst_kind.startswith("sharded"):
             for s in dinfo["scales"]:
                 s.pop("sharding", None)
+        if force and force.get("extra_dest_scale"):
+            # the destination announces a scale the source does not have
+            last_s = dinfo["scales"][-1]
+            extra = json.loads(json.dumps(last_s))
+            extra["key"] = "extra_" + last_s["key"]
+            extra["size"] = [max(1, -(-v // 2)) for v in last_s["size"]]
+            extra["resolution"] = [2 * v for v in last_s["resolution"]]
+            dinfo["scales"].append(extra)
         os.makedirs(dst)
         with open(os.path.join(dst, "info"), "w") as f:
             json.dump(dinfo, f)
@@ -473,6 +507,17 @@ def _convert(R, rng, d, j, src_dir, info, src_acc, src_kind, src_scales, force=N
     after = tree_hash(src_dir)
     if after != before:
         R.violation("the source dataset was modified by convert-chunks", case, {})
+    if force and force.get("extra_dest_scale"):
+        # nothing can be converted into the extra scale: the command must not report success over a destination
+        # whose info announces chunks that were never written
+        R.count("dest:announces-a-scale-the-source-lacks:" + ("refused" if rc != 0 else "rc0"))
+        if rc == 0:
+            try:
+                pipeline.read_dataset(dst, dst_acc)
+            except Exception as e:  # noqa: BLE001
+                R.violation("convert-chunks exited 0 although the destination announces a scale that was not "
+                            "written (its chunks cannot be read)", case, {"exc": f"{type(e).__name__}: {e}"[:300]})
+        return
     if rc != 0:
         R.violation("convert-chunks failed", case, {"rc": rc, "stderr": se[-700:]})
         return
